@@ -68,6 +68,7 @@ def functions(eri):
     q = np.array([1.0, -2.0, 0.5])
     F = [
         ("overlap_integral", lambda b: overlap_integral(b), 2),
+        ("overlap_integral(tol_screen=1e-6)", lambda b: overlap_integral(b, tol_screen=1e-6), 2),
         ("kinetic_energy_integral", lambda b: kinetic_energy_integral(b), 2),
         ("point_charge_integral", lambda b: point_charge_integral(b, pts, q), 2),
         ("moment_integral", lambda b: moment_integral(b, np.array([0.2, -0.1, 0.4]), np.array([[1, 0, 0], [0, 2, 1]])), 2),
@@ -99,7 +100,7 @@ def run_case(case):
     # natural magnitudes (arrays that vanish by symmetry, e.g. the momentum matrix of a single centre, are pure rounding noise)
     tmax = float(np.abs(np.diag(base["kinetic_energy_integral"])).max())
     rmax = 1.0 + max(float(np.abs(np.array(s_["c"])).max()) for s_ in shells)
-    floors = {"momentum_integral": np.sqrt(2 * tmax), "angular_momentum_integral": np.sqrt(2 * tmax) * rmax, "overlap_integral": 1.0,
+    floors = {"momentum_integral": np.sqrt(2 * tmax), "angular_momentum_integral": np.sqrt(2 * tmax) * rmax, "overlap_integral": 1.0, "overlap_integral(tol_screen=1e-6)": 1.0,
               "kinetic_energy_integral": tmax}
 
     def cmp(name, nidx, out, want, what, qty):
